@@ -152,7 +152,8 @@ def run_chain(rng, counters, violations):
         src_i = rng.randrange(len(live))
         src = live[src_i]
         kind = rng.choice(["rows", "rows2", "cols", "cols_str", "select", "add", "mul", "concat", "copy", "t", "head",
-                           "tail", "reverse", "setcol", "newcol", "setcell", "new", "colexpr", "delcol"])
+                           "tail", "reverse", "setcol", "newcol", "setcell", "new", "colexpr", "delcol", "pop", "neg",
+                           "at", "iter"])
         real_cols = [c for c in src._col_names]
         desc = kind
         snap = snapshot(src)
@@ -222,6 +223,35 @@ def run_chain(rng, counters, violations):
                 if ws:
                     desc = "del #%d[%r]" % (src_i, ws[0])
                     del src[ws[0]]
+            elif kind == "pop":
+                ws = [c for c in real_cols if c.startswith("w")]
+                if ws:
+                    desc = "#%d.pop(%r)" % (src_i, ws[-1])
+                    src.pop(ws[-1])
+            elif kind == "append":
+                if all(src._data[c].ndim == 1 for c in real_cols):
+                    desc = "#%d._append_row(...)" % src_i
+                    row = {c: (rng.choice(NAMES) if c == "name" else (src._data[c][0] if len(src) else
+                                {"x": 1.5, "i": 4, "s": "u", "o": None}.get(c, 0.0))) for c in real_cols}
+                    src._append_row(row)
+            elif kind == "neg":
+                desc = "-#%d" % src_i
+                out = -src
+            elif kind == "at":
+                if len(src):
+                    desc = "#%d.rows.at(k)" % src_i
+                    k = rng.randrange(len(src))
+                    rowt = src.rows.at(k)
+                    rowd = src.rows.at(k, as_dict=True)
+                    if list(rowd) != list(src._col_names) or len(rowt) != len(src._col_names):
+                        violations.append({"what": "C14 rows.at(%d) has fields %s, the table lists %s" % (k, list(rowd), src._col_names), "log": list(log)})
+                        return derived_ok
+            elif kind == "iter":
+                desc = "iterate #%d.rows" % src_i
+                n_it = sum(1 for _ in src.rows)
+                if n_it != len(src):
+                    violations.append({"what": "C14 iterating rows yields %d rows, len(table) is %d" % (n_it, len(src)), "log": list(log)})
+                    return derived_ok
             elif kind == "new":
                 out = new_table(rng)
                 desc = "new table"
@@ -248,7 +278,7 @@ def run_chain(rng, counters, violations):
             out = None
             desc += " -> raised %s" % type(exc).__name__
         log.append(desc)
-        is_derivation = kind not in ("setcol", "newcol", "setcell", "delcol", "new")
+        is_derivation = kind not in ("setcol", "newcol", "setcell", "delcol", "new", "pop", "append")
         if is_derivation:
             counters["derivations_with_source_snapshot"] = counters.get("derivations_with_source_snapshot", 0) + 1
             why = same_snapshot(snap, snapshot(src))
@@ -261,7 +291,7 @@ def run_chain(rng, counters, violations):
             live.append(out)
             if is_derivation:
                 derived_ok += 1
-                if kind in ("rows", "rows2", "cols", "cols_str", "select", "head", "tail", "reverse"):
+                if kind in ("rows", "rows2", "cols", "cols_str", "select", "head", "tail", "reverse", "neg"):
                     # scalar entries are carried over to row and column selections
                     sa, sb = scalars_of(src), scalars_of(out)
                     sa = {k: v for k, v in sa.items() if not hasattr(v, "dtype")}
